@@ -24,7 +24,7 @@ CHECKS = {
  "C08": ("exploration", "differential testing against crypto/cipher CFB / x/crypto / stdlib GCM references, exhaustive over length x cipher x aliasing, canary buffers; shared-instance workload under the Go race detector",
    "Every length 0..1500 for every cipher in both aliasing modes is compared with an independent reference (exhaustive in those dimensions, sampled in key/content).",
    "reference implementations trusted", "DESIGN.md §3 C08"),
- "C09": ("exploration", "independent wire decoder (written from README) attached to every datagram handed to the PacketConn; reference decryption, CRC/GCM verification, FEC header rules, Reed-Solomon re-encoding, stream reassembly, nonce/datagram freshness sets",
+ "C09": ("exploration", "independent wire decoder (written from README) attached to every datagram handed to the PacketConn; reference decryption, CRC/GCM verification, FEC header rules, Reed-Solomon re-encoding, stream reassembly, nonce/datagram freshness sets; fault injection into the batch transmit path (hook H5: partial batch, then ENOBUFS); uniqueness check over nonces drawn by concurrent callers",
    "Every datagram of every scenario is decoded by an implementation that shares no code with the package's parsers, so symmetric encoder/parser changes are visible; held on the traffic produced (all packet classes observed).",
    "trusted: crypto/*, x/crypto, hash/crc32, reedsolomon; scenarios sampled", "DESIGN.md §3 C09"),
  "C10": ("exploration", "wire-length monitor and core output-callback monitor under any-int SetMtu values before/during traffic; enumerated staging-buffer fill levels; process-survival oracle",
@@ -33,10 +33,10 @@ CHECKS = {
  "C06": ("exploration", "before/after deep state snapshots and SNMP counter deltas at synctest quiescence around single injected datagrams; corruptions built at plaintext level with reference ciphers",
    "Thousands of injections per quick run over all ciphers, both receive paths and all packet kinds; the no-effect oracle compares the complete reachable state by value, so an effect anywhere (decoder, autotune ring, session table, wake-up tokens, counters) is visible.",
    "snapshot exclusion list; reference ciphers", "DESIGN.md §3 C06"),
- "C11": ("exploration", "multi-peer simulations on one listener socket with per-peer content streams (cross-delivery visible), Accept-multiset oracle over the recorded history, before/after snapshots around injected foreign/stale datagrams",
+ "C11": ("exploration", "multi-peer simulations on one listener socket with per-peer content streams (cross-delivery visible), Accept-multiset oracle over the recorded history, before/after snapshots around injected foreign/stale datagrams (socket-like mixed-length addresses); real-time loopback part with one session's transmit queue kept full behind a rate limit (neighbours must stay responsive; sleep-overshoot monitor for machine stalls)",
    "Held on the multi-peer histories produced (about 2000 accepts and 500 judged injections per quick run).",
    "content streams are keyed per peer; stale first-datagram histories excluded (see assumptions)", "DESIGN.md §3 C11"),
- "C19": ("exploration", "exactly-once-or-absent / no-cross-delivery history oracle over keyed out-of-band payloads (sent book vs handler invocations), with the C01 content oracle and the wire decoder's FEC group check running on the same traffic",
+ "C19": ("exploration", "exactly-once-or-absent / no-cross-delivery history oracle over keyed out-of-band payloads (sent book vs handler invocations), with the C01 content oracle, the pool sanitizer and the wire decoder's FEC group check running on the same traffic; late copies of an earlier conversation's out-of-band datagrams injected after a reconnect (Accept count / session table oracle)",
    "Held on ~10^5 out-of-band sends and ~5*10^4 checked deliveries per quick run, across ciphers, FEC ratios, session counts and loss profiles.",
    "payloads shorter than 12 bytes are identified by (session, direction, length) only", "DESIGN.md §3 C19"),
  "C05": ("exploration", "seeded structure-aware hostile-input generation into the raw core, the raw FEC decoder and live sessions (simnet + real UDP) under the race detector/checkptr; process-survival, structural-bound and heap-growth monitors; content oracle on the concurrent legitimate transfer",
@@ -48,13 +48,13 @@ CHECKS = {
  "C13": ("exploration", "virtual-time trace monitor: return time and error class of every blocked caller recorded at the API boundary and compared with a reference model of deadline/data/close/error semantics at bubble quiescence after each scripted stimulus",
    "Thousands of scripted interleavings of blocked Read/Write/Accept callers with deadline changes, arrivals, Close and socket errors, judged to the exact virtual millisecond; held on the scripts executed.",
    "synctest virtual time; Go scheduler order inside one instant", "DESIGN.md §3 C13"),
- "C15": ("exploration", "goroutine/callback leak monitor at bubble quiescence after scripted Close orders; buffer-pool sanitizer (ownership map, poison, quarantine) at hook H2 in every scenario",
+ "C15": ("exploration", "goroutine/callback leak monitor at bubble quiescence after scripted Close orders; shutdown with sessions still waiting in the accept backlog; buffer-pool sanitizer (ownership map, poison, quarantine, reference-ownership check) at hook H2 in every scenario",
    "Held on the Close scripts and buffer acquisitions executed (hundreds of thousands of tracked acquisitions per quick run); a survivor goroutine is reported with its stack, a double recycle with both recycling stacks.",
    "runtime.Stack parsing; hook H2 add-only call-outs in bufferPool.Get/Put", "DESIGN.md §3 C15"),
  "C16": ("exploration", "decoder-state monitor (effective ratio after n packets) over exhaustively enumerated small ratio pairs and starting offsets plus sampled large ones; C07 oracle after convergence; stability soak with hostile arrival patterns; session-level runs",
    "All unequal pairs with d,p<=4 at every starting offset are executed; larger ratios sampled.",
    "uninterrupted-run precondition enforced by the generator / measured on the wire", "DESIGN.md §3 C16"),
- "C17": ("exploration", "real-time stress of the real scheduler under the race detector with injected yields at hand-off points; in-task clock comparisons and per-task execution counters; control-timer-relative promptness verdict; both asynctimerchan modes",
+ "C17": ("exploration", "real-time stress of the real scheduler under the race detector with injected yields at hand-off points; in-task clock comparisons and per-task execution counters; control-timer-relative promptness verdict; busy-worker rounds with long-running tasks judged against max(deadline, submission, end of the long tasks begun before) + slack with a sleep-overshoot monitor; both asynctimerchan modes",
    "Held on ~10^5 (quick) tasks across deadline patterns and worker counts; never-early and at-most-once are hard verdicts, 'ran' is judged against a control timer so that machine stalls are inconclusive, not violations.",
    "real-time scheduling of the sandbox", "DESIGN.md §3 C17"),
  "C12": ("exploration", "metamorphic trace comparison (base vs shifted sequence numbers / clock) on deterministic single-goroutine simulations; FEC and autotune wrap cases against the C07 oracle",
